@@ -224,6 +224,7 @@ static void ltv_step_h2(request_st * const r) {
             if (rc == HANDLER_WAIT_FOR_EVENT) return;
             if (rc > HANDLER_WAIT_FOR_EVENT || rc == HANDLER_COMEBACK) { r->state = CON_STATE_ERROR; continue; }
             out_hdrs(r, "H:");    /* h2_send_headers() */
+            r->resp_header_len = 1; /*(h2_send_headers() sets it: "response headers sent")*/
             r->state = CON_STATE_WRITE;
           }
             /* fallthrough */
